@@ -12,6 +12,12 @@ For every entity and every occurrence as the request position: references and
 documentHighlight must equal the entity's occurrence ranges; rename must edit
 exactly those ranges, and after applying the edits to the text and re-indexing a
 fresh server every occurrence must resolve to the renamed declaration.
+
+Entities spread over several files (ACROSS_FILES): a procedure declared by an interface body in a module and used from
+another file; a separate module procedure (interface body in the module, implementation in a submodule file, callers in a
+third file); a dummy argument of a separate module procedure used in the `module procedure` implementation in another
+file, next to a namesake dummy of another procedure.  Each x subroutine/function x one shape-specific dimension x file
+order; asked from every occurrence in every file (references, documentHighlight, rename).
 """
 from __future__ import annotations
 
@@ -84,9 +90,32 @@ HELPERS = ("subroutine helper(p, q)\n  integer :: p, q\nend subroutine helper\n"
            "integer function twice(p)\n  integer :: p\n  twice = 2 * p\nend function twice\n")
 
 
+# Shapes whose entity lives in several files.  A shape is written "<base>+<variant>,<variant>..."; the variants are the
+# dimensions of the family:  fun (function instead of subroutine), useall (`use m` instead of `use m, only: name`), long
+# (implementation `module subroutine name(k)` instead of `module procedure name`), second (the dummy is the second
+# argument), zfile (the other files sort after main.f90 instead of before it).
+ACROSS_FILES = {
+    "interface_body_across_files": [("fun",), ("useall",), ("zfile",)],
+    "module_procedure_interface_across_files": [("fun",), ("long",), ("zfile",)],
+    "separate_procedure_dummy_across_files": [("fun",), ("second",), ("zfile",)],
+}
+
+
+def across_shapes():
+    for base, dims in ACROSS_FILES.items():
+        for bits in itertools.product((False, True), repeat=len(dims)):
+            var = [d[0] for d, b in zip(dims, bits) if b]
+            yield base + ("+" + ",".join(var) if var else "")
+
+
 def build(shape, n, pats):
     ws = Workspace()
     f = ws.file("main.f90")
+    shape, _, var = shape.partition("+")
+    var = set(var.split(",")) if var else set()
+    fun = "fun" in var
+    kind = "function" if fun else "subroutine"
+    pre = "z_" if "zfile" in var else "a_"
     if shape == "local":
         f.add("subroutine work()")
         f.add("  implicit none")
@@ -340,6 +369,135 @@ def build(shape, n, pats):
         f.add("    call cb(1)")
         f.add("  end subroutine work")
         f.add("end module abs_mod")
+    elif shape == "interface_body_across_files":
+        # a module declares an external procedure by an interface body; the procedure is imported and invoked in another
+        # file: one entity, occurrences in both files
+        f.add("module ext_mod")
+        f.add("  implicit none")
+        f.add("  interface")
+        f.add("    ", "integer " if fun else "", kind, " ", D(n, "EXT"), "(a)")
+        f.add("      integer :: a")
+        f.add("    end ", kind, " ", U(n, "EXT"))
+        f.add("  end interface")
+        f.add("contains")
+        f.add("  subroutine work()")
+        f.add("    integer :: other")
+        f.add("    character(len=40) :: text")
+        f.add("    other = 0")
+        for p in pats:
+            if p in ("comment", "literal"):
+                emit(f, "    ", p, n, "EXT")
+        if fun:
+            f.add("    other = ", U(n, "EXT"), "(other) + ", U(n.upper(), "EXT"), "(2)")
+        else:
+            f.add("    call ", U(n, "EXT"), "(other); CALL ", U(n.upper(), "EXT"), "(other)")
+        f.add("  end subroutine work")
+        f.add("end module ext_mod")
+        g = ws.file(pre + "caller.f90")
+        g.add("subroutine caller()")
+        if "useall" in var:
+            g.add("  use ext_mod")
+        else:
+            g.add("  use ext_mod, only: ", U(n, "EXT"))
+        g.add("  implicit none")
+        g.add("  integer :: m")
+        g.add("  m = 1")
+        if fun:
+            g.add("  m = ", U(n, "EXT"), "(3)")
+            g.add("  if (", U(n, "EXT"), "(m)>0) m=", U(n, "EXT"), "(m)+1")
+        else:
+            g.add("  call ", U(n, "EXT"), "(3)")
+            g.add("  if (m>0) call ", U(n, "EXT"), "(m)")
+        g.add("end subroutine caller")
+    elif shape == "module_procedure_interface_across_files":
+        # a separate module procedure: the interface body in the module, the implementation in a submodule in a second file
+        # (`module procedure name`, or the header repeated), callers in a third file: one entity
+        f.add("module sep_mod")
+        f.add("  implicit none")
+        f.add("  interface")
+        f.add("    module ", kind, " ", D(n, "SEP"), "(k)", " result(r)" if fun else "")
+        f.add("      integer, intent(in) :: k")
+        if fun:
+            f.add("      integer :: r")
+        f.add("    end ", kind, " ", U(n, "SEP"))
+        f.add("  end interface")
+        f.add("contains")
+        f.add("  subroutine work()")
+        f.add("    integer :: other")
+        f.add("    character(len=40) :: text")
+        f.add("    other = 0")
+        for p in pats:
+            if p in ("comment", "literal"):
+                emit(f, "    ", p, n, "SEP")
+        if fun:
+            f.add("    other = ", U(n, "SEP"), "(other)")
+        else:
+            f.add("    call ", U(n, "SEP"), "(other)")
+        f.add("  end subroutine work")
+        f.add("end module sep_mod")
+        g = ws.file(pre + "impl.f90")
+        g.add("submodule (sep_mod) sep_impl")
+        g.add("  implicit none")
+        g.add("contains")
+        if "long" in var:
+            g.add("  module ", kind, " ", D(n, "SEP"), "(k)", " result(r)" if fun else "")
+            g.add("    integer, intent(in) :: k")
+            if fun:
+                g.add("    integer :: r")
+        else:
+            g.add("  module procedure ", D(n, "SEP"))  # the header of the implementation declares the procedure as well
+        g.add("    r = k + 1" if fun else "    print *, k")
+        g.add("  end ", kind if "long" in var else "procedure", " ", U(n, "SEP"))
+        g.add("end submodule sep_impl")
+        h = ws.file(pre + "caller.f90")
+        h.add("subroutine caller()")
+        h.add("  use sep_mod, only: ", U(n, "SEP"))
+        h.add("  implicit none")
+        h.add("  integer :: m")
+        h.add("  m = 1")
+        if fun:
+            h.add("  m = ", U(n, "SEP"), "(m) + ", U(n.upper(), "SEP"), "(2)")
+        else:
+            h.add("  call ", U(n, "SEP"), "(m); CALL ", U(n.upper(), "SEP"), "(2)")
+        h.add("end subroutine caller")
+    elif shape == "separate_procedure_dummy_across_files":
+        # the entity is a dummy argument of a separate module procedure: declared in the interface body (module file), used
+        # in the `module procedure` implementation (submodule, another file).  A second separate procedure has a dummy of
+        # the same spelling: another entity, in the same two files
+        args = ("w0", U(n, "DUM")) if "second" in var else (U(n, "DUM"), "w0")
+        f.add("module dum_mod")
+        f.add("  implicit none")
+        f.add("  interface")
+        f.add("    module ", kind, " bump(", args[0], ", ", args[1], ")", " result(r)" if fun else "")
+        f.add("      integer, intent(inout) :: ", D(n, "DUM"))
+        f.add("      integer, intent(in) :: w0")
+        if fun:
+            f.add("      integer :: r")
+        f.add("    end ", kind, " bump")
+        f.add("    module subroutine namesake(", U(n, "DUM2"), ")")
+        f.add("      integer, intent(inout) :: ", D(n, "DUM2"))
+        f.add("    end subroutine namesake")
+        f.add("  end interface")
+        f.add("end module dum_mod")
+        g = ws.file(pre + "impl.f90")
+        g.add("submodule (dum_mod) dum_impl")
+        g.add("  implicit none")
+        g.add("contains")
+        g.add("  module procedure bump")
+        g.add("    integer :: other")
+        g.add("    character(len=40) :: text")
+        for p in pats:
+            if p in ("comment", "literal"):
+                emit(g, "    ", p, n, "DUM")
+        g.add("    ", U(n, "DUM"), " = ", U(n, "DUM"), " + w0")
+        g.add("    if (", U(n.upper(), "DUM"), ">10) ", U(n, "DUM"), "=0")
+        if fun:
+            g.add("    r = ", U(n, "DUM"))
+        g.add("  end procedure bump")
+        g.add("  module procedure namesake")
+        g.add("    ", U(n, "DUM2"), "=", U(n, "DUM2"), "*2")
+        g.add("  end procedure namesake")
+        g.add("end submodule dum_impl")
     ws.file("helpers.f90").lines = HELPERS.rstrip("\n").split("\n")
     return ws
 
@@ -367,7 +525,11 @@ def run_case(job, acc: Acc):
     s.initialize(root)
     ents = sorted({o.ent for o in ws.occurrences()})
     case = {"shape": shape, "name": n, "patterns": list(pats), "new_name": new_name, "files": {k: v.text for k, v in ws.files.items()}}
-    tags0 = {"family": "occurrences", "shape": shape, "dollar": "$" in n, "patterns": ",".join(pats)}
+    base, _, var = shape.partition("+")
+    across = base in ACROSS_FILES
+    tags0 = {"family": "occurrences", "shape": base, "dollar": "$" in n, "patterns": ",".join(pats)}
+    if across:
+        tags0["variant"] = var
     acc.case(nontrivial_key=(shape, n, pats), outcome=(shape, len(ents)))
     reported = set()
 
@@ -398,9 +560,10 @@ def run_case(job, acc: Acc):
             hl = norm_locs(s.result("textDocument/documentHighlight", pos))
             if hl != refs:
                 report("highlight_differs_from_references", ent, refs, hl, f"documentHighlight from {o.file}:{o.line}:{o.col}")
-        # rename from the declaration and from the last occurrence
+        # rename from the declaration and from the last occurrence (entities spread over several files: from every occurrence,
+        # the edits of the first and of the last are applied and re-indexed)
         occs = [x for x in ws.occurrences() if x.ent == ent]
-        for o in (occs[0], occs[-1]):
+        for o in (occs if across else (occs[0], occs[-1])):
             path = os.path.join(root, o.file)
             r = s.result("textDocument/rename", {**Server.tdpp(path, o.line, (o.col + o.end) // 2), "newName": new_name})
             acc.count("requests")
@@ -412,6 +575,8 @@ def run_case(job, acc: Acc):
             got = sorted(e[:4] for e in edits if tuple(e[:4]) not in may)
             if got != want or any(e[4] != new_name for e in edits):
                 report("rename_edits", ent, want, got, f"rename from {o.file}:{o.line}:{o.col}")
+                continue
+            if o is not occs[0] and o is not occs[-1]:
                 continue
             # apply the edits and re-index: every occurrence must resolve to the renamed declaration
             new_files = {}
@@ -433,19 +598,20 @@ def run_case(job, acc: Acc):
             s2.initialize(root2)
             # positions after the edit: shift by the length difference of earlier edits on the same line
             delta = len(new_name)
-            decl = None
+            decls = []  # (a separate module procedure has two: the interface body and the repeated header in the submodule)
             moved = []
             for x in occs:
                 before = [y for y in occs if y.file == x.file and y.line == x.line and y.col < x.col]
                 col = x.col + sum(delta - (y.end - y.col) for y in before)
                 moved.append((x, col))
                 if x.decl:
-                    decl = (x.file, x.line, col, col + delta)
+                    decls.append((x.file, x.line, col, col + delta))
+            decl = decls[0] if len(decls) == 1 else None
             for x, col in moved:
                 d = s2.result("textDocument/definition", Server.tdpp(os.path.join(root2, x.file), x.line, col + delta // 2))
                 gotd = (os.path.basename(d["uri"]), d["range"]["start"]["line"], d["range"]["start"]["character"], d["range"]["end"]["character"]) if isinstance(d, dict) else d
-                if gotd != decl:
-                    report("after_rename_resolution", ent, decl, gotd, f"after rename to {new_name}: {x.file}:{x.line}:{col}")
+                if (gotd not in decls) if len(decls) > 1 else (gotd != decl):
+                    report("after_rename_resolution", ent, decl or decls, gotd, f"after rename to {new_name}: {x.file}:{x.line}:{col}")
                     break
     # An edit in the session: with ranged synchronisation, two blanks are typed in front of a line that holds an occurrence
     # (after a first search has looked at every line); the same search must then report that line's occurrences two
@@ -502,6 +668,13 @@ def jobs(maxlen):
             for pats in ((), ("comment",), ("literal",), ("comment", "literal")):
                 k += 1
                 yield (shape, n, pats, NEW_NAMES[k % len(NEW_NAMES)])
+    for shape in across_shapes():
+        for n in NAMES:
+            if "$" in n:
+                continue
+            for pats in ((), ("comment", "literal")):
+                k += 1
+                yield (shape, n, pats, NEW_NAMES[k % len(NEW_NAMES)])
 
 
 def main(ctx):
@@ -509,6 +682,9 @@ def main(ctx):
     ctx.rule = (f"every sequence of <= {maxlen} distinct statement patterns from a 14-pattern alphabet x 5 scope shapes x 4 names (plus two shapes whose entity is a procedure declared by an interface body / an abstract interface) "
                 "(i, xv, x_1, a$b); for every entity and every occurrence: references, documentHighlight; rename from the first and "
                 "last occurrence with one of 4 new names, edits applied, fresh server, definition at every occurrence. "
+                f"Plus {len(list(across_shapes()))} multi-file shapes (interface body in a module / separate module procedure / dummy of a separate module procedure, "
+                "each x subroutine|function x use-only|use-all resp. short|repeated header resp. first|second dummy x file order) x 3 names x 2 pattern sets, "
+                "rename from every occurrence. "
                 "Non-trivial: all; distinct by (shape, name, patterns).")
     ctx.assumptions = ["'$' in names is a common extension (accepted by the fortls WORD pattern)",
                        "documentHighlight is compared with references (single-file entities) rather than restricted to the document"]
